@@ -232,7 +232,9 @@ class SyncDrive(_BaseDrive):
                         'tb': traceback.format_exc()[-3000:],
                         'logger': 'thread'})
             th = threading.Thread(target=runner, daemon=True)
-            self.threads.append(th)
+            if getattr(target, '__name__', '') != '_thread':
+                # the pub/sub listener is a service thread: never joined
+                self.threads.append(th)
             th.start()
             return th
         eio.start_background_task = start_background_task
@@ -311,11 +313,22 @@ class SyncDrive(_BaseDrive):
 class AsyncDrive(_BaseDrive):
     is_async = True
 
-    def __init__(self, serializer='default', server_kw=None, **kw):
+    def __init__(self, serializer='default', server_kw=None, loop=None,
+                 **kw):
         super().__init__(serializer)
         import socketio
-        self.loop = VirtualLoop()
-        self.loop.set_exception_handler(self._loop_exc)
+        self.own_loop = loop is None
+        self.loop = loop or VirtualLoop()
+        if self.own_loop:
+            self.loop.set_exception_handler(self._loop_exc)
+        else:
+            prev = self.loop.get_exception_handler()
+
+            def chained(lp, context, _prev=prev):
+                self._loop_exc(lp, context)
+                if _prev:
+                    _prev(lp, context)
+            self.loop.set_exception_handler(chained)
         opts = dict(async_mode='asgi', monitor_clients=False,
                     serializer=serializer,
                     logger=make_logger('sio', self.errlog),
@@ -404,6 +417,8 @@ class AsyncDrive(_BaseDrive):
             t.alive = False
 
     def close(self):
+        if not self.own_loop:
+            return
         try:
             # cancel whatever is left
             for task in asyncio.all_tasks(self.loop):
